@@ -1,0 +1,84 @@
+//go:build verif && (verif_all || verif_c05)
+// +build verif
+// +build verif_all verif_c05
+
+package gocql
+
+// Verification hooks (build tag `verif`), property C05, allocation accounting of the row consumers:
+// a RESULT body is parsed and, when it is a ROWS result, consumed with one of Iter.Scan (loop),
+// Iter.Scanner, Iter.MapScan (loop), Iter.SliceMap, Iter.RowData, exactly as conn.executeQuery builds
+// the iterator. Add-only.
+
+import "fmt"
+
+// VerifC05RowsConsume returns the Go type of the parsed frame ("rows" for a ROWS result), the rows the
+// consumer got through, the destinations per row (meta.actualColCount), the described columns, the
+// announced row count and the bytes of the row set (len(f.buf) after parseFrame). Loops that the CALLER
+// writes (scan, scanner, mapscan) stop after rowCap rows; SliceMap's loop is gocql's own.
+func VerifC05RowsConsume(consumer string, proto, flags byte, body []byte, rowCap int) (kind string, rows, dests, cols, numRows, rest int, err error) {
+	f, err := verifC05Framer(proto, proto|0x80, flags, byte(opResult), body)
+	if err != nil {
+		return "", 0, 0, 0, 0, 0, err
+	}
+	fr, err := f.parseFrame()
+	if err != nil {
+		return "", 0, 0, 0, 0, 0, err
+	}
+	x, ok := fr.(*resultRowsFrame)
+	if !ok {
+		return fmt.Sprintf("%T", fr), 0, 0, 0, 0, 0, nil
+	}
+	iter := &Iter{meta: x.meta, framer: f, numRows: x.numRows}
+	kind, dests, cols, numRows, rest = "rows", iter.meta.actualColCount, len(iter.meta.columns), x.numRows, len(f.buf)
+	recorders := func() []interface{} {
+		n := dests
+		if n > 65536 {
+			n = 0
+		}
+		dest := make([]interface{}, n)
+		for i := range dest {
+			dest[i] = &VerifC05Recorder{}
+		}
+		return dest
+	}
+	switch consumer {
+	case "scan":
+		dest := recorders()
+		for rows < rowCap && iter.Scan(dest...) {
+			rows++
+		}
+		err = iter.Close()
+	case "scanner":
+		dest := recorders()
+		sc := iter.Scanner()
+		for rows < rowCap && sc.Next() {
+			if err = sc.Scan(dest...); err != nil {
+				break
+			}
+			rows++
+		}
+		if e := sc.Err(); err == nil {
+			err = e
+		}
+	case "mapscan":
+		for rows < rowCap {
+			m := map[string]interface{}{}
+			if !iter.MapScan(m) {
+				break
+			}
+			rows++
+		}
+		err = iter.Close()
+	case "slicemap":
+		var res []map[string]interface{}
+		res, err = iter.SliceMap()
+		rows = len(res)
+	case "rowdata":
+		var rd RowData
+		rd, err = iter.RowData()
+		rows = len(rd.Values)
+	default:
+		err = fmt.Errorf("unknown consumer %q", consumer)
+	}
+	return
+}
